@@ -15,6 +15,7 @@ package main
 //                  EVENT frames go to the event handler, never to a pending request
 
 import (
+	"sort"
 	"fmt"
 	"go/ast"
 	"go/constant"
@@ -388,7 +389,20 @@ func c14ClusterDispatch(p *Prog, r *Report, rule string) {
 	}
 	evIdx := int64(ls.cases["events"])
 	var problems []string
+	// private helpers the loop's arms were moved into
+	helpers := map[*ssa.Function]bool{}
+	for _, h := range withCallees(p, fn, 2) {
+		if h != fn && h.Parent() == nil && recvNamed(h) == cl && onlyCalledFrom(p, h, fn, 3) && h.Name() != "reconnect" {
+			helpers[h] = true
+		}
+	}
+	scan := []*ssa.Function{fn}
+	for h := range helpers {
+		scan = append(scan, h)
+	}
+	sort.Slice(scan[1:], func(i, j int) bool { return scan[1+i].String() < scan[1+j].String() })
 	s := newSim(p)
+	s.Inline = func(f *ssa.Function) bool { return helpers[f] }
 	s.OnBranch = func(st *State, cond ssa.Value, truth bool) {
 		if bo, ok := cond.(*ssa.BinOp); ok && bo.Op == token.EQL && bo.X == idxVal && truth {
 			if k, ok := constInt(bo.Y); ok && k == evIdx {
@@ -396,7 +410,7 @@ func c14ClusterDispatch(p *Prog, r *Report, rule string) {
 			}
 		}
 		if ex, ok := cond.(*ssa.Extract); ok {
-			if ta, ok := ex.Tuple.(*ssa.TypeAssert); ok && ta.Parent() == fn &&
+			if ta, ok := ex.Tuple.(*ssa.TypeAssert); ok && (ta.Parent() == fn || helpers[ta.Parent()]) &&
 				(typeIs(ta.AssertedType, "message", "SchemaChangeEvent") || typeIs(ta.AssertedType, "message", "TopologyChangeEvent") || typeIs(ta.AssertedType, "message", "StatusChangeEvent")) {
 				// the dispatch on the event's message type has been reached
 				if f, _ := loadedField(ta.X); f != nil && f.Name() == "Message" {
@@ -429,7 +443,8 @@ func c14ClusterDispatch(p *Prog, r *Report, rule string) {
 	// structure of the arms
 	var schemaTA *ssa.TypeAssert
 	var otherTAs []*ssa.TypeAssert
-	eachInstr(fn, func(in ssa.Instruction) {
+	for _, sf := range scan {
+	eachInstr(sf, func(in ssa.Instruction) {
 		if ta, ok := in.(*ssa.TypeAssert); ok && ta.CommaOk {
 			switch {
 			case typeIs(ta.AssertedType, "message", "SchemaChangeEvent"):
@@ -439,6 +454,7 @@ func c14ClusterDispatch(p *Prog, r *Report, rule string) {
 			}
 		}
 	})
+	}
 	okExtract := func(ta *ssa.TypeAssert, idx int) ssa.Value {
 		for _, ref := range *ta.Referrers() {
 			if ex, ok := ref.(*ssa.Extract); ok && ex.Index == idx {
@@ -452,7 +468,8 @@ func c14ClusterDispatch(p *Prog, r *Report, rule string) {
 	} else {
 		okV, msgV := okExtract(schemaTA, 1), okExtract(schemaTA, 0)
 		notified := 0
-		eachCall(fn, func(c ssa.CallInstruction) {
+		afn := schemaTA.Parent() // the function holding the arms (the loop itself or a helper)
+		eachCall(afn, func(c ssa.CallInstruction) {
 			cm := c.Common()
 			if !cm.IsInvoke() || cm.Method.Name() != "OnEvent" || !recvNamedIs(cm.Method, "proxycore", "ClusterListener") {
 				return
@@ -500,7 +517,7 @@ func c14ClusterDispatch(p *Prog, r *Report, rule string) {
 		// alternatively the arm calls a Cluster helper that ranges over the listeners and
 		// invokes OnEvent on each with its argument (sendEvent)
 		if notified == 0 {
-			eachCall(fn, func(c ssa.CallInstruction) {
+			eachCall(afn, func(c ssa.CallInstruction) {
 				callee := c.Common().StaticCallee()
 				if callee == nil || recvNamed(callee) != cl || okV == nil || !guardedBy(c.Block(), okV, true) {
 					return
@@ -553,7 +570,7 @@ func c14ClusterDispatch(p *Prog, r *Report, rule string) {
 	}
 	for _, ta := range otherTAs {
 		okV := okExtract(ta, 1)
-		eachCall(fn, func(c ssa.CallInstruction) {
+		eachCall(ta.Parent(), func(c ssa.CallInstruction) {
 			cm := c.Common()
 			if cm.IsInvoke() && cm.Method.Name() == "OnEvent" && okV != nil && guardedBy(c.Block(), okV, true) {
 				problems = append(problems, p.Pos(c.Pos())+": "+shortType(ta.AssertedType)+" is forwarded to listeners")
@@ -621,8 +638,12 @@ func c14Subscription(p *Prog, r *Report) {
 	} else {
 		sites := 0
 		eachCall(hs, func(c ssa.CallInstruction) {
-			if c.Common().StaticCallee() == reg {
+			callee := c.Common().StaticCallee()
+			if callee == reg {
 				sites++
+			} else if callee != nil && callee.Pkg == hs.Pkg && callee.Parent() == nil && onlyCalledFrom(p, callee, hs, 2) &&
+				callsDirectly(callee, func(cc2 ssa.CallInstruction) bool { return cc2.Common().StaticCallee() == reg }) {
+				sites++ // a private helper of the handshake that does the registration
 			}
 		})
 		if sites < 2 {
